@@ -5,8 +5,10 @@ package main
 import (
 	"bytes"
 	"fmt"
+	"html"
 	"regexp"
 	"strings"
+	"unicode"
 
 	classifier "github.com/google/licenseclassifier/v2"
 )
@@ -23,7 +25,7 @@ func normalizeSafe(c *classifier.Classifier, in []byte) (out []byte, panicked bo
 var noticeLike = regexp.MustCompile(`(?i)copyright|\d{4}-`)
 
 var c11DiffA, c11DiffB string // words at the first token difference of the last c11Verdict call
-var c11DiffLast bool            // the differing original token is the last one on its line
+var c11DiffLast bool          // the differing original token is the last one on its line
 
 // c11Verdict: "" when Normalize lines up with Match on this input.
 func c11Verdict(c *classifier.Classifier, in, out []byte) string {
@@ -72,7 +74,25 @@ func c11Class(c *classifier.Classifier, in []byte) string {
 	// symptom-specific classes, decided on the first differing token of the failing case
 	if c11DiffA != "" {
 		if strings.Contains(c11DiffA, "https") && strings.Replace(c11DiffA, "https", "http", -1) == c11DiffB {
-			return "cleaned-word-contains-https"
+			// the finding is about "https" that only APPEARS when punctuation is removed; a word that is written with
+			// "https" (in any casing, character references decoded) must have been rewritten by Match already
+			alnum := func(s string) string {
+				return strings.Map(func(r rune) rune {
+					if unicode.IsLetter(r) || unicode.IsDigit(r) {
+						return r
+					}
+					return -1
+				}, s)
+			}
+			written := false
+			for _, f := range strings.Fields(strings.ToLower(html.UnescapeString(string(in)))) {
+				if strings.Contains(f, "https") && alnum(f) == alnum(c11DiffA) {
+					written = true
+				}
+			}
+			if !written {
+				return "cleaned-word-contains-https"
+			}
 		}
 		if strings.HasSuffix(c11DiffA, "-") && c11DiffLast && c11DiffA[0] >= '0' && c11DiffA[0] <= '9' &&
 			strings.HasPrefix(c11DiffB, strings.TrimRight(c11DiffA, "-")) {
@@ -166,6 +186,16 @@ func cmdC11(seed uint64, tier, outdir string) {
 		lead := r.pick([]string{"Copyright 2015 Acme Inter-\nnational \n\n", "Copyright (c) 2020 Foo Bar-\nbaz  \n", "&-\n( \n",
 			"Copyright 2001 X Y-\nz \n \n\n", "(c) Copyright 1999 some-\none\t\n"})
 		ins = append(ins, input{"leading-tokenless-hyphenated-line:" + in.name, append([]byte(lead), in.data...)})
+	}
+	// a word the tokenizer rewrites (https -> http), written with an upper-case character reference, inside a license
+	for _, in := range ins[:len(ins)/8+1] {
+		ws := strings.Split(string(in.data), " ")
+		if len(ws) < 8 {
+			continue
+		}
+		i := 2 + r.intn(len(ws)-4)
+		ws = append(ws[:i:i], append([]string{httpsEntityWord(r)}, ws[i:]...)...)
+		ins = append(ins, input{"https-entity-word:" + in.name, []byte(strings.Join(ws, " "))})
 	}
 	nLicenseBearing := len(ins)
 	for i := 0; i < n/2; i++ {
